@@ -111,7 +111,7 @@ impl JsValue {
             // Fast path:
             (JsVariant::Integer32(x), JsVariant::Integer32(y)) => x
                 .checked_div(y)
-                .filter(|div| y * div == x)
+                .filter(|div| y * div == x && (x != 0 || y > 0))
                 .map_or_else(|| Self::new(f64::from(x) / f64::from(y)), Self::new),
             (JsVariant::Float64(x), JsVariant::Float64(y)) => Self::new(x / y),
             (JsVariant::Integer32(x), JsVariant::Float64(y)) => Self::new(f64::from(x) / y),
@@ -154,7 +154,7 @@ impl JsValue {
                 if y == 0 {
                     Self::nan()
                 } else {
-                    match x % y {
+                    match x.wrapping_rem(y) {
                         rem if rem == 0 && x < 0 => Self::new(-0.0),
                         rem => Self::new(rem),
                     }
@@ -210,14 +210,14 @@ impl JsValue {
                 .and_then(|y| x.checked_pow(y))
                 .map_or_else(|| Self::new(f64::from(x).powi(y)), Self::new),
             (JsVariant::Float64(x), JsVariant::Float64(y)) => {
-                if x.abs() == 1.0 && y.is_infinite() {
+                if y.is_nan() || (x.abs() == 1.0 && y.is_infinite()) {
                     Self::nan()
                 } else {
                     Self::new(x.powf(y))
                 }
             }
             (JsVariant::Integer32(x), JsVariant::Float64(y)) => {
-                if x.wrapping_abs() == 1 && y.is_infinite() {
+                if y.is_nan() || (x.wrapping_abs() == 1 && y.is_infinite()) {
                     Self::nan()
                 } else {
                     Self::new(f64::from(x).powf(y))
@@ -229,7 +229,7 @@ impl JsValue {
             // Slow path:
             (_, _) => match (self.to_numeric(context)?, other.to_numeric(context)?) {
                 (Numeric::Number(a), Numeric::Number(b)) => {
-                    if a.abs() == 1.0 && b.is_infinite() {
+                    if b.is_nan() || (a.abs() == 1.0 && b.is_infinite()) {
                         Self::nan()
                     } else {
                         Self::new(a.powf(b))
@@ -738,7 +738,7 @@ impl JsValue {
         if let (Some(x), Some(y)) = (self.0.as_integer32(), other.0.as_integer32()) {
             return Some(
                 x.checked_div(y)
-                    .filter(|div| y * div == x)
+                    .filter(|div| y * div == x && (x != 0 || y > 0))
                     .map_or_else(|| Self::new(f64::from(x) / f64::from(y)), Self::new),
             );
         }
@@ -754,7 +754,7 @@ impl JsValue {
             if y == 0 {
                 return Some(Self::nan());
             }
-            return Some(match x % y {
+            return Some(match x.wrapping_rem(y) {
                 rem if rem == 0 && x < 0 => Self::new(-0.0),
                 rem => Self::new(rem),
             });
@@ -778,7 +778,7 @@ impl JsValue {
         }
         let x = self.as_number_cheap()?;
         let y = other.as_number_cheap()?;
-        if x.abs() == 1.0 && y.is_infinite() {
+        if y.is_nan() || (x.abs() == 1.0 && y.is_infinite()) {
             Some(Self::nan())
         } else {
             Some(Self::new(x.powf(y)))
